@@ -110,6 +110,31 @@ def check_write_inventory(repo, rep, rule):
     return n, cone, shared, sites, cone_sites
 
 
+MEMO_DECORATORS = {'lru_cache', 'cache', 'cached_property', 'functools.lru_cache', 'functools.cache', 'functools.cached_property', 'memoize', 'memoized'}
+
+
+def memoised_in_cone(repo, rep, rule, why):
+    """no function of the printing pipeline is memoised by an equality-keyed cache; returns the instance count"""
+    cone, graph, fns = effects.print_cone(repo)
+    n = 0
+    bad = 0
+    for f in repo.all_functions():
+        if f.key not in cone:
+            continue
+        for dec in f.node.decorator_list:
+            d = dec.func if isinstance(dec, ast.Call) else dec
+            dn = dotted(d)
+            if dn in MEMO_DECORATORS:
+                n += 1
+                bad += 1
+                rep.fail(rule, 'cone-memo:%s:%s' % (f.qualname, dn), '%s:%d' % (f.module.relpath, dec.lineno),
+                         '%s is memoised with @%s inside the printing pipeline: %s' % (f.key, dn, why))
+    n += 1
+    rep.check(bad == 0, rule, 'no-equality-keyed-memo-in-the-pipeline', 'print cone', '%d pipeline functions carry no memoising decorator' % len(cone),
+              '%d memoised functions in the printing pipeline' % bad, nontrivial=True)
+    return n
+
+
 def doc_object_stores(repo, rep, rule):
     """C19.d: attribute stores on document objects outside constructors happen only in
     FlatChoice's two accessors, each under ``normalize_on_access``; objects with that flag set
